@@ -835,11 +835,31 @@ def op_set_sul(step, ctx):
     return [ev]
 
 
+def op_probe(step, ctx):
+    """Read public state of live objects (for the comparison with a model's projection); changes nothing."""
+    vals = []
+    for it in step['items']:
+        try:
+            v = ctx['objs'][it['obj']]
+            for a in it['path']:
+                v = getattr(v, a)
+            if isinstance(v, float):
+                v = 'nan' if v != v else repr(float(v))
+            elif isinstance(v, (np.floating,)):
+                v = 'nan' if v != v else repr(float(v))
+            elif hasattr(v, 'value') and not isinstance(v, (int, str)):
+                v = v.value
+            vals.append(str(v))
+        except Exception as e:  # noqa
+            vals.append('raised ' + exc_text(e))
+    return [{'op': 'probe', 'vals': vals, 'outcome': 'ok', 'hc': hc_flag()}]
+
+
 def op_mark(step, ctx):
     return [{'op': 'mark', 'what': step.get('what', ''), 'outcome': 'ok', 'hc': hc_flag()}]
 
 
-OPS = {'mark': op_mark, 'set_sul': op_set_sul, 'script': op_script, 'attr': op_attr, 'lowwrite': op_lowwrite, 'new_file': op_new_file, 'add_lf': op_add_lf, 'add': op_add, 'set': op_set,
+OPS = {'mark': op_mark, 'probe': op_probe, 'set_sul': op_set_sul, 'script': op_script, 'attr': op_attr, 'lowwrite': op_lowwrite, 'new_file': op_new_file, 'add_lf': op_add_lf, 'add': op_add, 'set': op_set,
        'nofmt_data': op_nofmt_data, 'hc_enter': op_hc, 'hc_exit': op_hc, 'hc_exit_exc': op_hc,
        'hc_decorated': op_hc_decorated, 'write': op_write, 'encode': op_encode}
 
